@@ -40,3 +40,12 @@ claim("C18",
  "For every encoded kind with hostile payload fields (any integer amount, unregistered/empty/foreign currency, any role assignment, zero signatures) no feasible path of txDeliverer (and Validate + deliver in the admitted regime) ends in a panic, os.Exit (logger.Fatal) or application close; every crash outcome is a first-class path result decided by the solver and replayed in a child process.",
  "Kinds not yet encoded are outside; byte strings that are not a well-formed envelope are outside (the JSON parser is not encoded).",
  "DESIGN.md §6 C18")
+
+claim("C10",
+ "One block-end election (InitValidatorQueue + GetEndBlockUpdate of the real ValidatorStore on real stores) from arbitrary candidate records at version h-1: powers, presence, last-commit membership, malicious flags, purge heights, minimum self delegation all symbolic, TopValidatorCount a choice. Goals: no duplicate key, positive updates only for candidates with recorded power >= minimum that are not flagged malicious, carrying exactly that power, at most the top count, preferring higher stake; zero updates only for validators of the last commit.",
+ "2 candidates (quick) / 3 (thorough); acceptability to Tendermint's UpdateWithChangeSet (non-empty set, total power range), the multi-block pipeline of pending updates and the five-block convergence are not yet encoded and are outside this claim.",
+ "DESIGN.md §6 C10")
+claim("C13",
+ "Three harnesses on the real code: (1) PullRewards/Calculate with arbitrary yearly supplies, year table, burnout rate and pool over three block-time scenarios and five heights: amount >= 0, within (year supply - distributed till last cycle) of the selected year, burnout capped by the pool; (2) restart independence: a calculator that cached the amount at the first block of a cycle and a fresh one agree at later heights of the cycle although Distributed moved; (3) handleBlockRewards with symbolic voting powers, signed flags, proposer, delegation pool and delegator amounts: everything credited to validators, delegators and proposer together is at most the pulled amount (nonlinear; goals discharged by z3 over the integers or on the real relaxation).",
+ "Block times are three concrete scenarios, not arbitrary sequences; 2/3 validators, 2 delegators; validator reward withdrawal (matured balance) not yet encoded. The BlockStore is a harness-supplied table of header times.",
+ "DESIGN.md §6 C13")
